@@ -261,7 +261,7 @@ var (
 	ratHalfCent = big.NewRat(5, 1000)
 	rat2p63     = new(big.Rat).SetInt(new(big.Int).Lsh(big.NewInt(1), 63))
 	rat2p64     = new(big.Rat).SetInt(new(big.Int).Lsh(big.NewInt(1), 64))
-	ratSmallInt = big.NewRat(99999, 1)
+	ratSmallInt = big.NewRat(1<<31-1, 1)
 	// smallest positive float64 is 2^-1074; anything <= 2^-1075 rounds to zero
 	ratF64Under = new(big.Rat).SetFrac(big.NewInt(1), new(big.Int).Lsh(big.NewInt(1), 1075))
 )
